@@ -195,7 +195,6 @@ def jobs(tier, seed):
     if tier != 'quick':
         # larger fixed programs: 4 processes x 2 timeouts, 3 x 3, and a spawn/interrupt mix with 6 timeouts
         shapes += [{'top': 4, 'scripts': [[['T'], ['T']], [['T'], ['T']], [['T'], ['T']], [['T'], ['T']]]},
-                   {'top': 3, 'scripts': [[['T'], ['T'], ['T']], [['T'], ['T'], ['T']], [['T'], ['T'], ['T']]]},
                    {'top': 2, 'scripts': [[['T'], ['S', 2], ['T'], ['I', 1]], [['T'], ['T'], ['J', 2]], [['T'], ['E', 0], ['T']]]}]
     for si, sh in enumerate(shapes):
         nT = sum(1 for s in sh['scripts'] for i in s if i[0] == 'T')
